@@ -30,7 +30,7 @@ var worker = flag.Bool("vx-worker", false, "internal")
 type program struct {
 	Client, Server   string // main thread of each side
 	Client2, Server2 string // optional second thread (concurrent close / stop)
-	Loss             string // none | fin | finack | after | dead
+	Loss             string // none | fin | finack | data1 | lastack | after | dead
 	Unrel            bool   // the tube under test is unreliable
 }
 
@@ -53,11 +53,24 @@ const stopBound = 10 * time.Second // Muxer.Stop: graceful close + forced close 
 
 func isFIN(b []byte) bool { return len(b) >= 2 && b[1]&(1<<4) != 0 && b[1]&3 == 0 }
 
+// isData: a frame of an established tube that carries payload and is not a FIN.
+func isData(b []byte) bool {
+	return len(b) > 12 && b[1]&3 == 0 && b[1]&(1<<4) == 0 && (int(b[2])<<8|int(b[3])) > 0
+}
+
 // lossFilter implements the loss patterns on one direction.
 func lossFilter(p program, dir string, deadAfter *bool, clientFinDelivered *bool) tuberig.Filter {
 	finSeen := 0
+	dataSeen := 0
 	return func(d string, n int, msg []byte) [][]byte {
 		switch p.Loss {
+		case "data1": // the first data frame of each direction is lost once: what follows it (e.g. the FIN) overtakes it
+			if isData(msg) {
+				dataSeen++
+				if dataSeen == 1 {
+					return [][]byte{}
+				}
+			}
 		case "dead":
 			return [][]byte{}
 		case "after":
@@ -150,7 +163,7 @@ func scenario(arg string) *vx.Scenario {
 			ok := false
 			if c, okc := closeAsked["client"]; okc {
 				s, oks := closeAsked["server"]
-				recoverable := p.Loss == "none" || p.Loss == "fin" || p.Loss == "finack"
+				recoverable := p.Loss == "none" || p.Loss == "fin" || p.Loss == "finack" || p.Loss == "data1"
 				if p.Loss == "lastack" && oks {
 					// the link dies towards the server once the server has sent its FIN. The client
 					// still hears everything (its last-ack / closing timers bound its wait); the
@@ -303,7 +316,7 @@ func init() { vx.Registry["shutdown"] = scenario }
 
 func programs(thorough bool) (all []program, core []program) {
 	seqs := []string{"c", "cx", "wc", "wcx", "Wc", "rc", "rcx", "s", "cs", "ws", "x", "o"}
-	losses := []string{"none", "fin", "finack", "lastack", "after", "dead"}
+	losses := []string{"none", "fin", "finack", "data1", "lastack", "after", "dead"}
 	for _, l := range losses {
 		for _, c := range seqs {
 			for _, sv := range seqs {
@@ -433,7 +446,7 @@ func main() {
 		// then cuts the broad phase, which covers all programs as far as the budget goes
 		phases = []phase{{"core programs, two deviations (any kinds) among the first 600 choice points", core, vx.Bounds{2, 2, 2, 1, 0}, 2, 600}, {"all programs, one deviation (any kind)", all, vx.Bounds{1, 1, 1, 1, 0}, 1, 0}}
 	}
-	r.SetRule("two real tube muxers (rewritten at check time for the deterministic scheduler + virtual clock) over an in-memory link; one tube opened by the client; per side a main thread with a sequence of <=3 operations from {Write 1 byte, Write 40000 bytes, Read, Close, WaitForClose, Stop, open a further reliable / unreliable tube, pause 2 s, kill the muxer's transport connection (its writes fail from then on)} (<=6 for the kill programs) and an optional second thread issuing a concurrent Close or Stop; loss patterns {none, first FIN lost, reply to the first FIN lost, everything from the client lost once the server has sent its FIN (lost last ACK), everything lost after 400 ms, dead network from the start}; the environment stops both muxers once all program threads returned, at the latest at virtual time 140 s. Every program is executed under every schedule within the phase's deviation bounds (iterative bounding; executions run to completion). Oracles: no deadlock, nothing still running at 10 virtual minutes, no panic in any thread (e.g. send on closed channel), every Close returns, Stop returns within 10 virtual seconds; WaitForClose returns within 120 virtual seconds of closure having become inevitable (both ends asked for it on a link that recovers, or the local muxer was told to stop), no thread alive 20 virtual seconds after both muxers stopped, after local close Write fails and Read ends with end-of-stream. states = distinct schedules; transitions = choice points met.")
+	r.SetRule("two real tube muxers (rewritten at check time for the deterministic scheduler + virtual clock) over an in-memory link; one tube opened by the client; per side a main thread with a sequence of <=3 operations from {Write 1 byte, Write 40000 bytes, Read, Close, WaitForClose, Stop, open a further reliable / unreliable tube, pause 2 s, kill the muxer's transport connection (its writes fail from then on)} (<=6 for the kill programs) and an optional second thread issuing a concurrent Close or Stop; loss patterns {none, first FIN lost, reply to the first FIN lost, first data frame of each direction lost once (the FIN overtakes it), everything from the client lost once the server has sent its FIN (lost last ACK), everything lost after 400 ms, dead network from the start}; the environment stops both muxers once all program threads returned, at the latest at virtual time 140 s. Every program is executed under every schedule within the phase's deviation bounds (iterative bounding; executions run to completion). Oracles: no deadlock, nothing still running at 10 virtual minutes, no panic in any thread (e.g. send on closed channel), every Close returns, Stop returns within 10 virtual seconds; WaitForClose returns within 120 virtual seconds of closure having become inevitable (both ends asked for it on a link that recovers, or the local muxer was told to stop), no thread alive 20 virtual seconds after both muxers stopped, after local close Write fails and Read ends with end-of-stream. states = distinct schedules; transitions = choice points met.")
 	var execs, points int64
 	traces := 0
 	for _, ph := range phases {
